@@ -15,6 +15,8 @@ dump, for the lock order) over a page cache of size = #threads and #threads-1.  
   kdump_open_fdset) exclusively; some threads write attributes with side effects (cache.size,
   file.mmap_policy, arch.page_size, file.zero_excluded) through all three write entry points
   while the other clones read;
+* every change of the shared translation object's reference counter (xlat_incref / xlat_decref in
+  kdump_clone / kdump_free; hooks/04) happens with shared->lock held for writing;
 * the locks are acquired in an order that is acyclic over all threads (LockOrder.acyclicb);
 * a refused read (BUSY) only happens while at least `cap` references are outstanding, and never
   when the cache has as many slots as there are threads;
@@ -123,6 +125,10 @@ def judge(run, case, line, model_verdict, fmt="?"):
     if not t.get("nolock", "0").startswith("0"):
         return ("spec", "cache entry point called without cache_lock (%s)" % t["nolock"],
                 "conc cache-op-without-lock " + t["nolock"].split(":")[-1])
+    if t.get("xlatnolock", "0") != "0":
+        return ("spec", "the reference counter of the shared translation object (kdump_xlat.refcnt / its context "
+                "list) is changed without shared->lock held for writing (%s times; hooks/04)" % t["xlatnolock"],
+                "conc xlat-refcnt-without-write-lock")
     if t.get("refsum") != "0,0,0":
         return ("spec", "cache entries stay pinned after all threads finished: refsum=%s" % t.get("refsum"),
                 "conc pinned-at-quiescence")
@@ -185,7 +191,8 @@ def check(run):
         "compiler and hardware memory-model effects below that granularity are not modelled",
         "engine conc: pthreads, the kernel scheduler (schedules are sampled, not enumerated); ThreadSanitizer in "
         "the thorough tier as schedule search",
-        "hooks/01-lock-events, 02-cache-refsum, 03-cache-entry-callout (add-only, guard LIBKDUMPFILE_VERIF)"]
+        "hooks/01-lock-events, 02-cache-refsum, 03-cache-entry-callout, 04-xlat-refcnt-callout (add-only, guard "
+        "LIBKDUMPFILE_VERIF; without hook 04 in the tree the xlat discipline is simply not observed)"]
     run.assumptions += [
         "each thread uses its own clone (threads.md); lazily validated attributes (memory.pagemap, max_pfn) are "
         "touched once before the threads start in the quick tier — first use from several threads is finding "
@@ -241,6 +248,9 @@ def check(run):
             d["seed"] = seed
             for n in (2, 4):
                 cases.append(("R %s %d %d %d %d 2" % (d["files"][0], n, n, 40, run.rng.randrange(1 << 16)), d))
+        # clone/free storm: the translation object's reference counter must equal the live contexts
+        for n in (2, 4, 8):
+            cases.append(("C %s %d %d" % (dumps[0]["files"][0], n, 20000 if quick else 200000), dumps[0]))
         # lost-update search on one hot page
         d = dumps[0]
         first = min(p for p, v in d["pages"].items() if v != "exclude")
@@ -258,6 +268,17 @@ def check(run):
                 verdicts[i] = v
     nev = 0
     for i, (l, o) in enumerate(zip(lines, out)):
+        if l.startswith("C "):
+            run.note_case(l, True)
+            run.count("clonestorm-runs")
+            m = re.search(r"xlatref=(\d+) expected=(\d+)", o)
+            if not m or m.group(1) != m.group(2):
+                run.violation("spec", "clone/free storm: the reference counter of the shared translation object is %s "
+                              "with %s live contexts (lost update: kdump_clone / kdump_free change it without mutual "
+                              "exclusion), or the run crashed: %s" % (m.group(1) if m else "?", m.group(2) if m else "?", o[:80]),
+                              {"engine": "conc", "case": l, "output": o, "how": "bin/check C05 --replay <this file>"},
+                              found_input=True, signature="conc xlat-refcnt-mismatch")
+            continue
         if l.startswith("S"):
             run.note_case(l, True)
             m = re.search(r"refsum=(\d+) expected=0", o)
